@@ -238,7 +238,8 @@ def _safe_line(alg_sx):
     """mirror of the driver's `safe` answer, from sparqlgen's Python copy of RV/C04/Safe.lean"""
     try:
         pat = G.query_pattern(G.parse_sx(alg_sx))
-        return f"safe={0 if G.alg_problems(pat) else 1} frag={1 if G.alg_in_fragment(pat) else 0}"
+        return (f"safe={0 if G.alg_problems(pat) else 1} frag={1 if G.alg_in_fragment(pat) else 0} "
+                f"top={0 if G.alg_problems_in(pat, []) else 1}")
     except Exception as e:
         return f"safe-error {type(e).__name__}"
 
@@ -411,12 +412,20 @@ def run_impl(case):
     safe_line = _safe_line(alg)
     try:
         pat = G.query_pattern(G.parse_sx(alg))
-        probs = G.alg_problems(pat)
-        st["safe"] = int(not probs)
+        # round g: the hypothesis of the theorems is the context-sensitive `Alg.safeIn [] ` (`safe_top`); the context-free
+        # `Alg.safe` of the earlier rounds implies it (theorem safeIn_of_safe) and is still counted (`safe`)
+        probs_free = G.alg_problems(pat)
+        probs = G.alg_problems_in(pat, [])
+        st["safe"] = int(not probs_free)
+        st["safe_top"] = int(not probs)
+        if probs and not probs_free:
+            viol.append("harness: Alg.safe holds but Alg.safeIn [] does not (contradicts theorem safeIn_of_safe)")
         st["in_proved_fragment"] = int(G.alg_in_fragment(pat))
         st["safe_and_in_proved_fragment"] = int(not probs and G.alg_in_fragment(pat))
         for k in probs:
             st["unsafe_" + k] = 1
+        for k in probs_free:
+            st["unsafe_ctxfree_" + k] = 1
         if G.annotation_mismatches(pat):
             st["annotations_not_as_addVars"] = 1
         if viol and not probs:
@@ -537,7 +546,7 @@ def _kind_matcher(kind):
         if not result.get("viol") or any(v.startswith("safe-") or v.startswith("raises") for v in result["viol"]):
             return False
         alg = _algebra_text(G.to_sparql(case["q"]))
-        probs = G.alg_problems(G.query_pattern(G.parse_sx(alg)))
+        probs = G.alg_problems_in(G.query_pattern(G.parse_sx(alg)), [])
         if not (set(kind) & probs):
             return False
         # the annotations must be exactly what the CURRENT `_addVars` computes: a change of `_addVars` is a new defect
